@@ -140,3 +140,51 @@ package genetics
 // precondition makes every verified caller prove that it never reaches this function.
 //@ func (*Genome).duplicateControlGenes
 //@   requires [nonModularOnly] false
+
+// ---- C08: speciation ------------------------------------------------------------------------------
+// The compatibility distance enters as a function of the two genomes (their state is not modified during
+// speciation); its value is specified by C07.
+//@ ufunc distU(Int, Int) Float
+//@ func (*Genome).compatibility
+//@   props C07
+//@   requires g != nil && og != nil && opts != nil
+//@   modifies nothing
+//@   noalloc
+//@   free_ensures [function] result == distU(g, og)
+//@ pred speciesOrgsWF(p *Population) = forall i :: 0 <= i && i < len(p.Species) ==> p.Species[i] != nil && (forall k :: 0 <= k && k < len(p.Species[i].Organisms) ==> p.Species[i].Organisms[k] != nil && p.Species[i].Organisms[k].Genotype != nil)
+//@ func NewSpeciesNovel
+//@   props C08
+//@   modifies nothing
+//@   ensures [fresh] fresh(result) && result.Id == id && result.Age == 1 && result.IsNovel == novel && len(result.Organisms) == 0 && fresh(result.Organisms) && result.ExpectedOffspring == 0
+//@ func createFirstSpecies
+//@   props C08
+//@   requires pop != nil && baby != nil && baby.Genotype != nil
+//@   requires forall i :: 0 <= i && i < len(pop.Species) ==> pop.Species[i] != nil
+//@   modifies Population.LastSpecies, Population.Species, Organism.Species, Mem[*Species], Mem[*Organism]
+//@   ensures [freshId] pop.LastSpecies == old(pop.LastSpecies) + 1 && baby.Species != nil && fresh(baby.Species) && baby.Species.Id == pop.LastSpecies && baby.Species.IsNovel && baby.Species.Age == 1
+//@   ensures [appended] len(pop.Species) == old(len(pop.Species)) + 1 && pop.Species[len(pop.Species) - 1] == baby.Species
+//@   ensures [kept] forall i :: 0 <= i && i < old(len(pop.Species)) ==> pop.Species[i] == old(pop.Species[i])
+//@   ensures [member] len(baby.Species.Organisms) == 1 && baby.Species.Organisms[0] == baby
+//@   ensures [othersKept] forall o *Organism :: o != baby ==> o.Species == old(o.Species)
+//@   ensures [orgMemKept] forall b :: wasAllocated(b) ==> Mem[*Organism][b] == old(Mem[*Organism][b])
+//@   ensures [speciesMemKept] forall b :: wasAllocated(b) && b != old(base(pop.Species)) ==> Mem[*Species][b] == old(Mem[*Species][b])
+//@ func (*Population).speciate
+//@   props C08
+//@   requires p != nil && neat.ErrNEATOptionsNotFound != nil
+//@   requires forall i :: 0 <= i && i < len(organisms) ==> organisms[i] != nil && organisms[i].Genotype != nil
+//@   requires speciesOrgsWF(p)
+//@   loop 1:
+//@     invariant -1 <= #idx && #idx < len(organisms) && opts != nil
+//@     invariant forall i :: 0 <= i && i < len(organisms) ==> organisms[i] != nil && organisms[i].Genotype != nil
+//@     invariant speciesOrgsWF(p)
+//@   loop 2:
+//@     invariant -1 <= #idx && #idx < len(p.Species)
+//@     invariant done <==> bestCompatible != nil
+//@     invariant bestCompatible == nil ==> bestCompatValue == 1.7976931348623157e308
+//@     invariant bestCompatible == nil ==> (forall m :: 0 <= m && m <= #idx ==> !(len(p.Species[m].Organisms) > 0 && distU(currOrg.Genotype, p.Species[m].Organisms[0].Genotype) < opts.CompatThreshold))
+//@     invariant bestCompatible != nil ==> bestCompatValue < opts.CompatThreshold && (exists j :: 0 <= j && j <= #idx && p.Species[j] == bestCompatible && len(p.Species[j].Organisms) > 0 && bestCompatValue == distU(currOrg.Genotype, p.Species[j].Organisms[0].Genotype))
+//@     invariant bestCompatible != nil ==> (forall m :: 0 <= m && m <= #idx && len(p.Species[m].Organisms) > 0 && distU(currOrg.Genotype, p.Species[m].Organisms[0].Genotype) < opts.CompatThreshold ==> bestCompatValue <= distU(currOrg.Genotype, p.Species[m].Organisms[0].Genotype))
+//@     exit [none] bestCompatible == nil ==> (forall m :: 0 <= m && m < len(p.Species) ==> !(len(p.Species[m].Organisms) > 0 && distU(currOrg.Genotype, p.Species[m].Organisms[0].Genotype) < opts.CompatThreshold))
+//@     exit [member] bestCompatible != nil ==> bestCompatValue < opts.CompatThreshold && (exists j :: 0 <= j && j < len(p.Species) && p.Species[j] == bestCompatible && len(p.Species[j].Organisms) > 0 && bestCompatValue == distU(currOrg.Genotype, p.Species[j].Organisms[0].Genotype))
+//@     exit [nearest] bestCompatible != nil ==> (forall m :: 0 <= m && m < len(p.Species) && len(p.Species[m].Organisms) > 0 && distU(currOrg.Genotype, p.Species[m].Organisms[0].Genotype) < opts.CompatThreshold ==> bestCompatValue <= distU(currOrg.Genotype, p.Species[m].Organisms[0].Genotype))
+//@     exit [flag] done <==> bestCompatible != nil
